@@ -766,15 +766,7 @@ func (w *world) keysetStream(r *hlib.Rng) {
 					}
 				case "mem":
 					// the Lean keyset model's view of the written proto keyset vs the re-read handle
-					withID := false
-					for _, k := range mem.Keyset.GetKey() {
-						if k.GetOutputPrefixType() == tinkpb.OutputPrefixType_WITH_ID_REQUIREMENT {
-							withID = true // the keyset model (C14) does not know this prefix type
-						}
-					}
-					if withID {
-						o.Count("K-handle-line-skipped(WITH_ID_REQUIREMENT)")
-					} else if kslib.Expressible(mem.Keyset) {
+					if kslib.Expressible(mem.Keyset) {
 						o.Emit(fmt.Sprintf("K handle %d %s", mem.Keyset.GetPrimaryKeyId(), kslib.KeysTok(mem.Keyset, nil)), kslib.HandleRes(got, nil), true)
 					}
 					if d := sameHandle(h, insecurecleartextkeyset.KeysetHandle(proto.Clone(mem.Keyset).(*tinkpb.Keyset))); d != "" {
@@ -926,6 +918,84 @@ func (w *world) keysetStream(r *hlib.Rng) {
 							}
 						}
 					}
+				}
+			}
+		}
+	}
+}
+
+// unserializableKeysets: a handle holding a key that SerializeKey refuses must make every writer
+// fail; a writer that returns nil must have written something that reads back to the same handle.
+func (w *world) unserializableKeysets(r *hlib.Rng) {
+	o := w.o
+	keks := makeKEKs(r)
+	for _, src := range w.unser {
+		o.Case()
+		k := src.k
+		opts := []keyset.KeyOpts{keyset.AsPrimary()}
+		if _, req := k.IDRequirement(); !req {
+			opts = append(opts, keyset.WithFixedID(5))
+		}
+		km := keyset.NewManager()
+		if _, err := km.AddKeyWithOpts(k, internalapi.Token{}, opts...); err != nil {
+			o.Count("unserializable-key-keyset/manager-refuses/" + src.c.typ)
+			continue
+		}
+		h, err := km.Handle()
+		if err != nil {
+			o.Count("unserializable-key-keyset/manager-refuses/" + src.c.typ)
+			continue
+		}
+		desc := fmt.Sprintf("%s[%s]", src.c.typ, src.c.label)
+		type attempt struct {
+			pair  string
+			write func(keyset.Writer) error
+			read  func(keyset.Reader) (*keyset.Handle, error)
+			want  *keyset.Handle
+		}
+		as := []attempt{
+			{"cleartext", func(wr keyset.Writer) error { return insecurecleartextkeyset.Write(h, wr) },
+				func(rd keyset.Reader) (*keyset.Handle, error) { return insecurecleartextkeyset.Read(rd) }, h},
+			{"encrypted", func(wr keyset.Writer) error { return h.WriteWithAssociatedData(wr, keks[0].a, []byte("ad")) },
+				func(rd keyset.Reader) (*keyset.Handle, error) {
+					return keyset.ReadWithAssociatedData(rd, keks[0].a, []byte("ad"))
+				}, h},
+		}
+		if _, ok := k.(pubber); ok {
+			if pub, err := h.Public(); err == nil {
+				as = append(as, attempt{"public", func(wr keyset.Writer) error { return pub.WriteWithNoSecrets(wr) },
+					func(rd keyset.Reader) (*keyset.Handle, error) { return keyset.ReadWithNoSecrets(rd) }, pub})
+			}
+		}
+		for _, a := range as {
+			for _, f := range formats {
+				pair := a.pair + "/" + f.name
+				var buf bytes.Buffer
+				mem := &keyset.MemReaderWriter{}
+				var werr error
+				if p := hlib.Recover(func() { werr = a.write(f.writer(&buf, mem)) }); p != "" {
+					w.violate("keyset/unserializable-key/writer-panics/"+pair, "%s: %s", desc, p)
+					continue
+				}
+				if werr != nil {
+					o.Count("unserializable-key-keyset/writer-reports-error/" + pair)
+					continue
+				}
+				var got *keyset.Handle
+				var rerr error
+				var same string
+				if p := hlib.Recover(func() {
+					got, rerr = a.read(f.reader(&buf, mem))
+					if rerr == nil {
+						same = sameHandle(a.want, got)
+					}
+				}); p != "" {
+					rerr = fmt.Errorf("panic: %s", p)
+				}
+				if rerr != nil || same != "" {
+					w.violate("keyset/unserializable-key-written-silently/"+pair, "%s: the writer returned nil for a handle whose key cannot be serialized, and what it wrote does not read back: %v %s", desc, rerr, same)
+				} else {
+					o.Count("unserializable-key-keyset/written-and-read-back/" + pair)
 				}
 			}
 		}
